@@ -176,3 +176,25 @@ pub use crate::be::verif as be;
 pub fn value_validate(v: &Value) -> bool {
     v.validate()
 }
+
+/// A multi-valued key set (`ValueSetKeyInternal` has no insert; the server builds these with
+/// `from_key_iter`, whose key type is crate-private).
+#[allow(clippy::type_complexity)]
+pub fn key_internal_set(
+    keys: Vec<(String, KeyUsage, u64, KeyStatus, Cid, Vec<u8>)>,
+) -> Result<crate::valueset::ValueSet, OperationError> {
+    crate::valueset::ValueSetKeyInternal::from_key_iter(keys.into_iter().map(
+        |(id, usage, valid_from, status, status_cid, der)| {
+            (
+                KeyId::from(id),
+                crate::valueset::KeyInternalData {
+                    usage,
+                    valid_from,
+                    status,
+                    status_cid,
+                    der: Zeroizing::new(der),
+                },
+            )
+        },
+    ))
+}
